@@ -6,7 +6,8 @@ INFO = {
             "every input and free space of every output enumerated (unequal levels), samples symbolic. Checked per work() call: steps = "
             "min(inputs, output spaces), one sample per input/output per step, per-wire values (distinct affine maps), verdict stream identity, "
             "constructor return order and wiring, generated eof().",
-    "bounds": "arities (in x out): 2x1, 1x2, 1x3, 2x2, 1x1 sync_tag, 1x(packet+sample) new-only; capacity 2..3; fill levels 0..cap.",
+    "bounds": "arities (in x out): 2x1, 1x2, 1x3, 2x2, 1x(packet+sample) new-only; capacity 2..3; fill levels 0..cap.  The sync_tag instances (B11T) are "
+              "enumerated but none finishes within 2400 s / 14 GB (Cow<[Tag]> + tags.to_vec() per sample), so sync_tag mode is NOT established.",
     "outside": "THREE inputs in sync mode: the macro's expansion does not type-check at this commit (nested zip tuples), so 3x1 cannot be instantiated "
                "(a compile-time refusal, noted in DESIGN.md, not a run-time violation); blocks with >3 streams.",
     "stubs": ["heap ring + stand-ins (C01)", "std::fmt::format -> empty"],
